@@ -5,7 +5,7 @@ use log::info;
 
 use super::{
     graph::GraphInline,
-    node::{Node, NodeIter, NodePointer, Reference, ReferenceType},
+    node::{Node, NodeIter, NodePointer, Reference, ReferenceType, Table},
     Key, NodeId,
 };
 
@@ -285,6 +285,15 @@ impl Tree {
             node: match &self.node {
                 Node::Section(inlines) => Node::Section(relocate_all(inlines)),
                 Node::Leaf(inlines) => Node::Leaf(relocate_all(inlines)),
+                Node::Table(table) => Node::Table(Table {
+                    header: table.header.iter().map(relocate_all).collect(),
+                    alignment: table.alignment.clone(),
+                    rows: table
+                        .rows
+                        .iter()
+                        .map(|row| row.iter().map(relocate_all).collect())
+                        .collect(),
+                }),
                 _ => self.node.clone(),
             },
             children: self
@@ -297,21 +306,27 @@ impl Tree {
 
     /// `relative_to` is the directory of the note this tree belongs to
     pub fn change_key(&self, target_key: &Key, updated_key: &Key, relative_to: &str) -> Tree {
+        let change_all = |inlines: &Vec<GraphInline>| {
+            inlines
+                .iter()
+                .map(|inline| inline.change_key(target_key, updated_key, relative_to))
+                .collect_vec()
+        };
         Tree {
             id: self.id,
             node: match &self.node {
-                Node::Section(inlines) => Node::Section(
-                    inlines
+                Node::Section(inlines) => Node::Section(change_all(inlines)),
+                Node::Leaf(inlines) => Node::Leaf(change_all(inlines)),
+                // links in table cells follow the renamed note too
+                Node::Table(table) => Node::Table(Table {
+                    header: table.header.iter().map(change_all).collect(),
+                    alignment: table.alignment.clone(),
+                    rows: table
+                        .rows
                         .iter()
-                        .map(|inline| inline.change_key(target_key, updated_key, relative_to))
-                        .collect_vec(),
-                ),
-                Node::Leaf(inlines) => Node::Leaf(
-                    inlines
-                        .iter()
-                        .map(|inline| inline.change_key(target_key, updated_key, relative_to))
-                        .collect_vec(),
-                ),
+                        .map(|row| row.iter().map(change_all).collect())
+                        .collect(),
+                }),
                 Node::Reference(reference) => Node::Reference(Reference {
                     key: if reference.key.eq(target_key) {
                         updated_key.clone()
